@@ -28,6 +28,7 @@ import (
 	"path/filepath"
 	"regexp"
 	"slices"
+	"sort"
 	"strings"
 
 	"github.com/goplus/llgo/internal/buildtags"
@@ -198,7 +199,15 @@ func genExternDeclsByClang(pkg *aPackage, src string, cflags []string, cgoSymbol
 
 	b := strings.Builder{}
 	var toRemove []string
-	for cgoName, symbolName := range cgoSymbols {
+	// Emit the declarations in a fixed order: map iteration order would make
+	// the generated C source, and the IR compiled from it, differ between builds.
+	cgoNames := make([]string, 0, len(cgoSymbols))
+	for cgoName := range cgoSymbols {
+		cgoNames = append(cgoNames, cgoName)
+	}
+	sort.Strings(cgoNames)
+	for _, cgoName := range cgoNames {
+		symbolName := cgoSymbols[cgoName]
 		if strings.HasPrefix(symbolName, "__cgo_") {
 			gofuncName := strings.Replace(cgoName, ".__cgo_", ".", 1)
 			gofn := pkg.LPkg.FuncOf(gofuncName)
@@ -348,7 +357,12 @@ func parseCgo_(buildCtx *build.Context, pkg *aPackage, files []*ast.File) (srcFi
 		srcFiles = append(srcFiles, cgoSrcFile{path: match, isCXX: isCXX})
 		return nil
 	}
+	sortedDirs := make([]string, 0, len(dirs))
 	for dir := range dirs {
+		sortedDirs = append(sortedDirs, dir)
+	}
+	sort.Strings(sortedDirs)
+	for _, dir := range sortedDirs {
 		for _, pattern := range []struct {
 			glob  string
 			isCXX bool
